@@ -15,6 +15,7 @@ import (
 	"fmt"
 	"hash/fnv"
 	"sort"
+	"sync"
 )
 
 // World is the whole simulated process environment of one boot.
@@ -138,5 +139,69 @@ func Tick() {
 		W.TickBudget = 1 << 40
 		W.Event("budget-exceeded")
 		panic(BudgetPanic{Ticks: t})
+	}
+}
+
+// ---- locks ---------------------------------------------------------------
+// The library has no lock today. Should one appear, the weaver routes
+// Lock/Unlock on sync.Mutex / sync.RWMutex here: the simulated process has one
+// thread, so acquiring a lock that is already held can never succeed — it is
+// reported as a hang instead of blocking the harness forever.
+
+// HangPanic unwinds an operation that would block forever.
+type HangPanic struct{ Why string }
+
+var heldW = map[interface{}]int{}
+var heldR = map[interface{}]int{}
+
+// MuLock replaces m.Lock().
+func MuLock(m interface{}) {
+	if W != nil && (heldW[m] > 0 || heldR[m] > 0) {
+		W.Stat("lock.self-deadlock")
+		W.Event("self-deadlock on %T", m)
+		panic(HangPanic{Why: "Lock on a mutex this (single) thread already holds"})
+	}
+	switch x := m.(type) {
+	case *sync.Mutex:
+		x.Lock()
+	case *sync.RWMutex:
+		x.Lock()
+	}
+	heldW[m]++
+}
+
+// MuUnlock replaces m.Unlock().
+func MuUnlock(m interface{}) {
+	if heldW[m] > 0 {
+		heldW[m]--
+	}
+	switch x := m.(type) {
+	case *sync.Mutex:
+		x.Unlock()
+	case *sync.RWMutex:
+		x.Unlock()
+	}
+}
+
+// MuRLock replaces m.RLock().
+func MuRLock(m interface{}) {
+	if W != nil && heldW[m] > 0 {
+		W.Stat("lock.self-deadlock")
+		W.Event("self-deadlock (RLock under Lock) on %T", m)
+		panic(HangPanic{Why: "RLock on a mutex this (single) thread holds for writing"})
+	}
+	if x, ok := m.(*sync.RWMutex); ok {
+		x.RLock()
+	}
+	heldR[m]++
+}
+
+// MuRUnlock replaces m.RUnlock().
+func MuRUnlock(m interface{}) {
+	if heldR[m] > 0 {
+		heldR[m]--
+	}
+	if x, ok := m.(*sync.RWMutex); ok {
+		x.RUnlock()
 	}
 }
